@@ -162,7 +162,7 @@ def is_spd(M):
 
 
 CLASSES = ["triclinic", "monoclinic", "orthorhombic", "tetragonal7", "tetragonal6", "trigonal7", "trigonal6",
-           "hexagonal", "cubic", "isotropic", "triclinic-subset", "orthotropic-nine-of-21"]
+           "hexagonal", "cubic", "isotropic", "triclinic-subset", "orthotropic-nine-of-21", "orthotropic+shear-shear"]
 
 
 def make_field(rng, cls, nt, ntv):
@@ -179,6 +179,10 @@ def make_field(rng, cls, nt, ntv):
             keep = set(ORTHO) | set(rng.sample(extra, rng.randint(1, len(extra) - 1)))
         elif cls == "orthotropic-nine-of-21":
             keep = set(ORTHO)
+        elif cls == "orthotropic+shear-shear":
+            # the 6x6 matrix is NOT block diagonal in the shear block, but has no axial-shear coupling
+            ss = ["45", "46", "56"]
+            keep = set(ORTHO) | set(rng.sample(ss, rng.randint(1, 3)))
         grid = []
         ok = True
         for it in range(nt):
@@ -507,7 +511,7 @@ def run(ctx):
         points += run_stub(CC, "replay", keys, [[M]], inp["cellmass_g_per_mol"], [inp["volume_bohr3"]], [300.0], 0.9)
 
     # -- 1. stub calculators ------------------------------------------------------------------------
-    nfields = 100 if quick else 1000
+    nfields = 100 if quick else 3000
     for n in range(nfields):
         cls = CLASSES[n % len(CLASSES)]
         nt, ntv = rng.choice([(2, 3), (1, 4), (3, 2), (3, 4)] if not quick else [(2, 3), (1, 4), (3, 2)])
@@ -526,9 +530,10 @@ def run(ctx):
 
     # -- 2. complete Calculator runs ----------------------------------------------------------------
     import synth
-    ncalc = 2 if quick else 8
+    ncalc = 2 if quick else 20
     for n in range(ncalc):
-        keyset = [synth.ORTHO, synth.ALL_KEYS, synth.ORTHO + ["15", "25", "35", "46"]][n % 3]
+        keyset = [synth.ORTHO + ["46"], synth.ALL_KEYS, synth.ORTHO + ["15", "25", "35", "46"], synth.ORTHO,
+                  synth.ORTHO + ["45", "56"]][n % 5]
         ds = synth.make_dataset(rng, keys=keyset)
         sp = synth.write_case(rd / ("calc%d" % n), ds)
         try:
@@ -598,13 +603,16 @@ def run(ctx):
     if (PROPS / "Prop_C07.v").exists():
         shutil.copy(PROPS / "Prop_C07.v", rd / "Prop_C07.v")
         ctx.prove(rd / "Prop_C07.v", "Prop_C07.v (theorems about VRHModel at the R instance)", "theorem-file")
+        # static translator tie: formulas of calculator.py regenerated and proved equal to VRHModel.v (over R)
+        from props import vrh_static
+        vrh_static.static_tie(ctx, rd, groups=vrh_static.CALCULATOR_GROUPS)
     else:
         ctx.obligation("Prop_C07.v present", "theorem-file", False, "props/Prop_C07.v missing")
 
     # -- 5. search stage ----------------------------------------------------------------------------
     # exact rational oracle on every failing case and on the first grid point of every field,
     # float evaluation of the same oracle on everything else
-    exact_budget = 150 if quick else 1500
+    exact_budget = 150 if quick else 4500
     seen_labels = set()
     n_exact = n_float = 0
     for i, p in enumerate(points):
